@@ -749,6 +749,15 @@ impl<E: Elem> World<E> {
                         "tr" => format!("[{}]", it.take(2).rev().map(|e| e.show()).collect::<Vec<_>>().join(",")),
                         "rs" => format!("[{}]", it.rev().skip(1).map(|e| e.show()).collect::<Vec<_>>().join(",")),
                         "last" => it.last().map(|e| e.show()).unwrap_or("-".into()),
+                        // jumps of exactly the remaining length, of the remaining length minus one and far beyond it, each
+                        // followed by one more call (what the jump leaves behind); a jump followed by the rest
+                        "nl" => { let mut it = it; let n = it.len(); let a = it.nth(n).map(|e| e.show()).unwrap_or("-".into()); let b = it.next().map(|e| e.show()).unwrap_or("-".into()); format!("{a}/{b}") }
+                        "nx" => { let mut it = it; let n = it.len(); let a = it.nth(n.saturating_sub(1)).map(|e| e.show()).unwrap_or("-".into()); let b = it.next().map(|e| e.show()).unwrap_or("-".into()); format!("{a}/{b}") }
+                        "nh" => { let mut it = it; let a = it.nth(usize::MAX / 3 + 1).map(|e| e.show()).unwrap_or("-".into()); let b = it.next().map(|e| e.show()).unwrap_or("-".into()); format!("{a}/{b}") }
+                        "nbl" => { let mut it = it; let n = it.len(); let a = it.nth_back(n).map(|e| e.show()).unwrap_or("-".into()); let b = it.next_back().map(|e| e.show()).unwrap_or("-".into()); format!("{a}/{b}") }
+                        "nbh" => { let mut it = it; let a = it.nth_back(usize::MAX / 5 + 1).map(|e| e.show()).unwrap_or("-".into()); let b = it.next().map(|e| e.show()).unwrap_or("-".into()); format!("{a}/{b}") }
+                        "nr" => { let mut it = it; let a = it.nth(1).map(|e| e.show()).unwrap_or("-".into()); format!("{a}/[{}]", it.map(|e| e.show()).collect::<Vec<_>>().join(",")) }
+                        "nbr" => { let mut it = it; let a = it.nth_back(1).map(|e| e.show()).unwrap_or("-".into()); format!("{a}/[{}]", it.map(|e| e.show()).collect::<Vec<_>>().join(",")) }
                         _ => it.count().to_string(),
                     }
                 }};
@@ -764,7 +773,7 @@ impl<E: Elem> World<E> {
                 _ => match m.iter_nth_col_mut(k) { Err(e) => Got::Err(e), Ok(v) => Got::Val(apply!(v)) },
             })
         };
-        let keys = ["n1", "nb1", "ss", "tr", "rs", "last", "count"];
+        let keys = ["n1", "nb1", "ss", "tr", "rs", "last", "count", "nl", "nx", "nh", "nbl", "nbh", "nr", "nbr"];
         let mut parts: Vec<String> = Vec::new();
         let mut head: Option<String> = None;
         for key in keys {
@@ -782,7 +791,11 @@ impl<E: Elem> World<E> {
             Some(v) => {
                 let o = |x: Option<&String>| x.cloned().unwrap_or("-".into());
                 let l = |x: Vec<&String>| format!("[{}]", x.into_iter().cloned().collect::<Vec<_>>().join(","));
-                format!("ok n1={} nb1={} ss={} tr={} rs={} last={} count={}", o(v.iter().nth(1)), o(v.iter().nth_back(1)), l(v.iter().skip(1).step_by(2).collect()), l(v.iter().take(2).rev().collect()), l(v.iter().rev().skip(1).collect()), o(v.iter().last()), v.iter().count())
+                let two = |mut it: std::slice::Iter<String>, n: usize, back: bool, then_back: bool| { let a = o(if back { it.nth_back(n) } else { it.nth(n) }); let b = o(if then_back { it.next_back() } else { it.next() }); format!("{a}/{b}") };
+                let rest = |mut it: std::slice::Iter<String>, back: bool| { let a = o(if back { it.nth_back(1) } else { it.nth(1) }); format!("{a}/{}", l(it.collect())) };
+                let n = v.len();
+                format!("ok n1={} nb1={} ss={} tr={} rs={} last={} count={} nl={} nx={} nh={} nbl={} nbh={} nr={} nbr={}", o(v.iter().nth(1)), o(v.iter().nth_back(1)), l(v.iter().skip(1).step_by(2).collect()), l(v.iter().take(2).rev().collect()), l(v.iter().rev().skip(1).collect()), o(v.iter().last()), v.iter().count(),
+                        two(v.iter(), n, false, false), two(v.iter(), n.saturating_sub(1), false, false), two(v.iter(), usize::MAX / 3 + 1, false, false), two(v.iter(), n, true, true), two(v.iter(), usize::MAX / 5 + 1, true, false), rest(v.iter(), false), rest(v.iter(), true))
             }
         };
         if obs != want { out.oracle_fail(&format!("{op}: expected `{want}`, implementation gave `{obs}`")); }
